@@ -105,7 +105,7 @@ func (r *propRun) explore(j Job) *jobResult {
 	if j.Cap == 0 {
 		j.Cap = 150 * time.Second
 		if r.tier == "thorough" {
-			j.Cap = 1500 * time.Second
+			j.Cap = 600 * time.Second
 		}
 	}
 
